@@ -89,6 +89,9 @@ pub struct Ctx {
     session_tolerated: RefCell<BTreeSet<String>>,
     pub violations: Cell<u64>,
     pub quiet: bool,
+    /// keep the byte case being executed in a file (crash attribution); worth it only
+    /// when a case costs milliseconds
+    pub journal_bytes: Cell<bool>,
 }
 
 pub const MAX_SAMPLES: usize = 6;
@@ -119,6 +122,7 @@ impl Ctx {
             session_tolerated: RefCell::new(BTreeSet::new()),
             violations: Cell::new(0),
             quiet: false,
+            journal_bytes: Cell::new(false),
         }
     }
 
@@ -348,7 +352,7 @@ impl Ctx {
             );
             let result = runner.run(&strat, |bytes| {
                 self.beat();
-                if !self.strict {
+                if !self.strict && self.journal_bytes.get() {
                     // crash attribution: the case being executed is always on disk
                     let rec = format!("{{\"kind\":\"{}\",\"payload\":{{\"bytes\":\"{}\"}}}}", kind, hex(&bytes));
                     if !self.skip.is_empty() && self.skip.contains(&fnv(rec.as_bytes())) {
